@@ -54,6 +54,28 @@ HIST = {
     "C16-E": "round 4, first exposure: MISSED by C16 itself (C09's `c09.case.suffix_collides_with_column` covers the shape) -> old references through alias(keep_col_refs=True) with a hidden namesake and a real subquery (C16)",
     "C18-E": "round 4, first exposure: caught",
     "C20-E": "round 4, first exposure: MISSED (ColExpr.export(Pandas) of a one-row result) -> table shapes random / one row / empty and ColExpr.export(Pandas) in the target agreement of C20",
+    # round 5: one more change for every property (letter F), generated at the start of the last session; first exposure =
+    # the committed checks of that moment (7bb36c9), before the generator, the wide-integer mode and the shapes below existed
+    "C01-F": "round 5, first exposure: MISSED by C01's quick tier (the deciding templates `c05.win.*.desc_nf` sat in the seed-rotated part; C05 and C01 thorough catch it) -> `c05.win.` moved into C01's fixed core",
+    "C02-F": "round 5, first exposure: MISSED by C02 itself (C09 catches the identical change C09-F) -> `c02.t.hidden_namesake_subquery_*`: an overwritten column referenced through alias(keep_col_refs=True) across a real subquery; patch re-based after fix F61",
+    "C03-F": "round 5, first exposure: MISSED (`//` through float64 differs only beyond 2**53, outside the 2**31 bound) -> wide-integer mode (4.9) and `c03.wide.*`; the same templates found the genuine defect F58",
+    "C04-F": "round 5, first exposure: MISSED (grouping key computed by a case expression whose branch values are all literals) -> grouping-key shapes `case_lits`, `case_lits_noelse`, `cmp_key`, `const_key`, `const_and_col` in C04; `const_key` exposed the genuine defect F57",
+    "C05-F": "round 5, first exposure: caught",
+    "C06-F": "round 5, first exposure: caught",
+    "C07-F": "round 5, first exposure: caught",
+    "C08-F": "round 5, first exposure: caught",
+    "C09-F": "round 5, first exposure: caught; patch re-based after fix F61",
+    "C10-F": "round 5, first exposure: caught",
+    "C11-F": "round 5, first exposure: caught",
+    "C12-F": "round 5, first exposure: MISSED (cast to the abstract target `Float()` whose result is exported as it is; every existing template added a float afterwards) -> `c17.int_to_generic_float_bare`, `generic_targets_bare`, `generic_float_agg` (seen by C12 through borrowing)",
+    "C13-F": "round 5, first exposure: caught (the agent re-invented C13-B)",
+    "C14-F": "round 5, first exposure: caught",
+    "C15-F": "round 5, first exposure: caught",
+    "C16-F": "round 5, first exposure: MISSED (order of several grouping columns through alias()) -> `c16.grouping_order_survives_*`",
+    "C17-F": "round 5, first exposure: caught",
+    "C18-F": "round 5, first exposure: caught",
+    "C19-F": "round 5, first exposure: caught",
+    "C20-F": "round 5, first exposure: caught",
 }
 
 TEXT = """## 10. Seeded changes: which checks catch which
@@ -63,7 +85,8 @@ one property and its own scratch git worktree of /repo under /tmp (nothing from 
 other agents' work) and was asked for a small change that breaks the property, still compiles,
 keeps the pinned test-suite green and needs something specific to manifest, plus a demo script.
 Rounds 1 and 2 gave two changes per property each (A/B, C/D), rounds 3 and 4 one more (E) for
-ten properties each (round 3 after the temporal extension, round 4 at the very end).  Every change was confirmed by me before it was kept
+ten properties each (round 3 after the temporal extension, round 4 at the end of the build session), round 5 one more (F)
+for every property.  Every change was confirmed by me before it was kept
 (`tools/confirm_seed.sh`: scratch worktree of the current /repo HEAD, demo exits 0 on the pristine
 tree and non-zero with the patch, the 64 stable tests pass with the patch) and is stored as
 `seeded/<property>-<letter>/{patch.diff, demo.py, meta.json}`; `meta.json` records what it breaks,
@@ -97,7 +120,23 @@ measurement: first exposure 6 of 10 caught (C01, C07, C09, C10, C11, C18), 4 mis
 C20), each again a missing program shape (column `history`); one more defect of the unchanged tree
 came in as a side remark of a sub-agent (F56).  So on changes the checks were not tuned to, the
 observed detection rate of "own property's quick check" was 12 of 20; after adding the missing
-shapes all are caught.  The table below is the state after the last strengthening.
+shapes all are caught.
+
+Round 5 (last session; one more change for *every* property, letter F, twenty fresh sub-agents that again saw only the
+property text and a scratch worktree) was measured against the committed checks as they stood at the start of that
+session: first exposure 14 of 20 caught (C05-C11, C13-C15, C17-C20), 6 missed (C01, C02, C03, C04, C12, C16).  Two of the
+misses were caught by a neighbouring check (C01-F by C05, C02-F by C09 - the same edit as C09-F, found independently);
+C01-F was a quick-tier rotation gap, C03-F lay outside the integer bound (it led to the wide-integer mode of 4.9), the other
+four were again missing program shapes (column `history`).  Over the three unbiased rounds the own-property quick check
+caught 26 of 40 changes at first exposure, 30 of 40 counting neighbouring checks.  The larger yield of round 5 was indirect:
+the agents' notes about things that already failed on the *unchanged* tree (7.4) led to fifteen `fix:` commits (F57, F59-F72);
+each was first turned into a template or rule that raises the violation on the then-current tree.  Two patches (C02-F,
+C09-F) had to be re-based by hand after fix F61 touched the same block (the identical edit); all twenty were re-confirmed
+on the final /repo HEAD.  The scratch worktrees shared one `git stash` (my prompt suggested it), so some agents briefly
+received each other's edits; every delivered patch was therefore confirmed again by me on a clean worktree
+(`tools/confirm_seed.sh`), which is what counts.  The table below is the state after the last strengthening; the rows of rounds
+1-4 were measured on the tree of the previous session (their `meta.json` records the HEAD they were confirmed on) and were not
+re-run after the sixteen fixes of this session.
 
 """
 
